@@ -1304,6 +1304,12 @@ where
                 })
             })
             .and_then(|size: usize| {
+                if size == 0 {
+                    // A zero-length element (e.g. an empty string) is a value, not a null.
+                    // `read_n_bytes` reports `None` when the slice is already exhausted,
+                    // which is the case when such an element is the last one.
+                    return Ok(Some(FrameSlice::new_empty()));
+                }
                 self.slice.read_n_bytes(size).map_err(|err| {
                     mk_deser_err::<Self>(
                         self.collection_type,
